@@ -104,6 +104,31 @@ def run(pid, tier, seed, replay):
         out = os.path.join(wd, "malformed.ndjson")
         vlib.run([ldrv, "malformed", str(300 if tier == "quick" else 5000), str(seed), out], timeout=6000)
         runs.append(("documents", "Loader", out))
+    if pid == "C05" and not replay:
+        # every configuration of the Walk model (MC_Walk), explored exhaustively by TLC, walked by the real Spec.Walk
+        d = vlib.fresh_dir(pid, "mc_walk")
+        r = vlib.tlc_ok(d, "MC_Walk.tla", "MC_Walk.cfg", workers=1, timeout=3000, heap="8g")
+        tot["generated"] += r["generated"]
+        tot["distinct"] += r["distinct"]
+        lines = open(os.path.join(d, "export.ndjson")).read().splitlines()
+        log("  MC_Walk: %d states, %d configurations; ConsumedInOrder, StepBound, TruthfulRemainder, Continuous, DoneIsQuiescent hold (%.0fs)" % (r["distinct"], len(lines), r["wall"]))
+        import concurrent.futures as cf
+
+        def wshard(i):
+            part = lines[i::16]
+            inp = os.path.join(wd, "uw_in_%02d.ndjson" % i)
+            open(inp, "w").write("\n".join(part) + "\n")
+            o = os.path.join(wd, "uw_out_%02d.ndjson" % i)
+            vlib.run([drv, "univwalk", inp, o], timeout=6000)
+            return o
+        with cf.ThreadPoolExecutor(max_workers=16) as ex:
+            outs = list(ex.map(wshard, range(16)))
+        up = os.path.join(wd, "univwalk.ndjson")
+        with open(up, "w") as f:
+            for o in outs:
+                f.write(open(o).read())
+        runs.insert(0, ("univwalk", "Walk", up))
+        exhaustive = True
     stats_all, judged, samples = {}, 0, []
     for name, judge, path in runs:
         jd = vlib.fresh_dir(pid, "judge_" + name)
@@ -136,7 +161,7 @@ def run(pid, tier, seed, replay):
         "rule": "seeded generation of (spec, state, message(s), control) over the action language; every call of the real Spec.Step/Spec.Walk "
                 "is recorded and judged by TLC against StepOutcomes / the walk predicates; non-trivial = steps that moved / strides taken",
         "judge_stats": stats_all, "exhaustive": bool(exhaustive),
-        "exhaustive_scope": "MC_Step universe (node shapes with <=1 branch in quick; <=2 branches, every 4th case exported, in thorough) enumerated by TLC and every exported case driven; generated cases are a seeded sample" if pid in ("C04", "C08", "C18") else "seeded sample",
+        "exhaustive_scope": "MC_Step universe (node shapes with <=1 branch in quick; <=2 branches, every 4th case exported, in thorough) enumerated by TLC and every exported case driven; generated cases are a seeded sample" if pid in ("C04", "C08", "C18") else ("MC_Walk: all 14,700 configurations (7x7 node shapes, message sequences <=3, limits 0..4, breakpoint on/off, 2 start bindings) explored by TLC and walked by the real engine in every split; generated walks are a seeded sample" if pid == "C05" else "seeded sample"),
         "known_findings_hit": {k: v["count"] for k, v in rep.known.items()},
     }, ASSUME[pid], time.time() - t0, len(rep.violations))
     return rc
